@@ -122,6 +122,16 @@ def score_is_definition(pm, ctx):
             continue
         if status == "equal":
             ctx.ok("C01-e", site)
+            if ctx.tier == "thorough":
+                from ..e8_gemini import cross_check_instances
+                try:
+                    what, ok_ = cross_check_instances(pm, cname, ovo)[1]
+                    if ok_:
+                        ctx.ok("C01-e", site + " [finite instances]", what)
+                    else:
+                        ctx.undecided_site("C01-e", site + " [finite instances]", "the expanded instances disagree with the symbolic verdict: normaliser unsound - " + what)
+                except Unsupported as e:
+                    ctx.undecided_site("C01-e", site + " [finite instances]", f"cannot expand: {e}")
         elif status == "undecided":
             ctx.undecided_site("C01-e", site, detail)
         else:
